@@ -296,16 +296,17 @@ CAMPAIGNS = {
         {"world": "W3", "schedules": ("default", 0), "depth": 2, "modes": {1: "dep2", 2: "dep2"}, "max": 400},
     ],
     "thorough": [
-        {"world": "W1", "schedules": ("dev", 2), "depth": 1, "modes": {1: "full"}},
+        {"world": "W1", "schedules": ("dev", 1), "depth": 1, "modes": {1: "full"}},
+        {"world": "W1", "schedules": ("dev", 2, ["UsagePattern", "Job"]), "depth": 1, "modes": {1: "full"}},
         {"world": "W2", "schedules": ("dev", 2), "depth": 1, "modes": {1: "full"}},
-        {"world": "W3", "schedules": ("dev", 1), "depth": 1, "modes": {1: "full"}},
-        {"world": "W1c", "schedules": ("dev", 1), "depth": 1, "modes": {1: "full"}},
+        {"world": "W3", "schedules": ("dev", 1, ["UsagePattern", "Job", "Server"]), "depth": 1, "modes": {1: "full"}},
+        {"world": "W1c", "schedules": ("rev", 0), "depth": 1, "modes": {1: "full"}},
         {"world": "W1", "schedules": ("rev", 0), "depth": 1, "modes": {1: "pairs"}},
         {"world": "W2", "schedules": ("rev", 0), "depth": 1, "modes": {1: "pairs"}},
         {"world": "W3", "schedules": ("default", 0), "depth": 1, "modes": {1: "pairs"}},
         {"world": "W1", "schedules": ("rev", 0), "depth": 2, "modes": {1: "core", 2: "core"}},
         {"world": "W2", "schedules": ("rev", 0), "depth": 2, "modes": {1: "core", 2: "core"}},
-        {"world": "W3", "schedules": ("default", 0), "depth": 2, "modes": {1: "core", 2: "core"}, "max": 12000},
+        {"world": "W3", "schedules": ("default", 0), "depth": 2, "modes": {1: "core", 2: "core"}, "max": 6000},
         {"world": "W1", "schedules": ("default", 0), "depth": 3, "modes": {1: "dep2", 2: "dep2", 3: "dep2"}},
         {"world": "W2", "schedules": ("default", 0), "depth": 3, "modes": {1: "dep2", 2: "dep2", 3: "dep2"}},
         {"world": "W2", "schedules": ("default", 0), "depth": 2, "modes": {1: "dep2", 2: "dep2"}, "merge": False},
